@@ -5,7 +5,9 @@ patch="$1"; shift
 cd /repo || exit 2
 if ! git diff --quiet; then echo "/repo has local changes; refusing"; exit 2; fi
 git apply "$patch" || { echo "patch does not apply"; exit 2; }
-trap 'git -C /repo checkout -- . ; git -C /repo clean -fdq tests 2>/dev/null' EXIT
+# evidence and replays written while the change is applied describe the changed tree: keep them out of /verif/evidence
+keep=$(mktemp -d /dev/shm/evidence-keep.XXXXXX); cp -a /verif/evidence/. "$keep"/
+trap 'git -C /repo checkout -- . ; git -C /repo clean -fdq tests 2>/dev/null; rm -rf /verif/evidence; mkdir -p /verif/evidence; cp -a "$keep"/. /verif/evidence/; rm -rf "$keep"' EXIT
 for id in "$@"; do
   tier=${TIER:-quick}
   out=$(/verif/check $id $tier 2>&1); rc=$?
